@@ -15,7 +15,7 @@
 (***************************************************************************)
 EXTENDS System, Json
 
-CONSTANTS MaxCalls, GEN, Rich     \* Rich: programs with linear-combination templates, by-construction constants, one deviation
+CONSTANTS MaxCalls, GEN, Rich, MaxDev     \* Rich: programs with linear-combination templates, by-construction constants, one deviation
 
 VARIABLES hist       \* history: calls made so far with the handles the model returned
 
@@ -34,7 +34,7 @@ MCInit ==
   /\ cberr = [P |-> "", V |-> ""]
   /\ degen = FALSE
   /\ out = NoOut
-  /\ hist = [ops |-> << >>, cb |-> << >>, retP |-> << >>, retV |-> << >>, fin |-> FALSE, pend |-> NoPending, vskip |-> FALSE, dev |-> FALSE, nfix |-> 0, nch |-> 0, known |-> << >>, cbs |-> << >>, cur |-> 0]
+  /\ hist = [ops |-> << >>, cb |-> << >>, retP |-> << >>, retV |-> << >>, fin |-> FALSE, pend |-> NoPending, vskip |-> FALSE, dev |-> FALSE, ndev |-> 0, nfix |-> 0, nch |-> 0, known |-> << >>, cbs |-> << >>, cur |-> 0]
 
 NCalls == Len(hist.ops) + Len(hist.cb)
 LastGate == PLen(cs.P) - 1
@@ -87,7 +87,7 @@ Templates ==
 FixCon(t, delta) ==
   [op |-> "con", lc |-> t.m \o << <<"1", 0, Fadd(Fneg(PEval(cs.P, t.m)), delta)>> >>,
    prog |-> IF delta = 0 THEN [op |-> "con", lc |-> t.p, fix |-> hist.nfix + 1]
-                         ELSE [op |-> "con", lc |-> t.p, fix |-> hist.nfix + 1, delta |-> delta],
+                         ELSE [op |-> "con", lc |-> t.p, fix |-> hist.nfix + 1, delta |-> IF delta = MinusOne THEN -1 ELSE delta],
    isfix |-> TRUE, isdev |-> delta # 0]
 
 RichCalls ==
@@ -97,8 +97,10 @@ RichCalls ==
   \cup {[op |-> "alloc", a |-> 4], [op |-> "allocmul", l |-> 2, r |-> 3]}
   \cup {[op |-> "mul", l |-> t.m, r |-> u.m, prog |-> [op |-> "mul", l |-> t.p, r |-> u.p]] : t \in Templates, u \in Templates}
   \cup {FixCon(t, 0) : t \in Templates}
-  \cup (IF hist.dev THEN {} ELSE
-        {FixCon(t, 1) : t \in Templates}
+  \* deviations: at most MaxDev per behaviour; a second one lets errors of equal or opposite size meet at different positions
+  \* (a sound verifier weighs every gate and constraint with its own monomial, so they can never cancel)
+  \cup (IF hist.ndev >= MaxDev THEN {} ELSE
+        {FixCon(t, d) : t \in Templates, d \in {1, MinusOne}}
         \cup (IF PLen(cs.P) > 0
               THEN {[op |-> "setgate", i |-> g, l |-> cs.P.aL[g + 1], r |-> cs.P.aR[g + 1], o |-> Fadd(cs.P.aO[g + 1], 1),
                      prog |-> [op |-> "breakgate", i |-> g, delta |-> 1], isdev |-> TRUE] : g \in {0, LastGate} \ {cs.P.pending}}
@@ -127,6 +129,7 @@ LockCall(c) ==
                                                     err |-> rp.err, len |-> PLen(rp.st)]),
                                 !.retV = Append(@, [ret |-> rv.ret, err |-> rv.err, len |-> VLen(rv.st)]),
                                 !.dev = @ \/ ("isdev" \in DOMAIN c /\ c.isdev),
+                                !.ndev = IF "isdev" \in DOMAIN c /\ c.isdev THEN @ + 1 ELSE @,
                                 !.nfix = IF "isfix" \in DOMAIN c THEN @ + 1 ELSE @,
                                 !.nch = IF c.op = "chal" THEN @ + 1 ELSE @,
                                 !.known = @ \o (CASE c.op \in {"alloc", "commit"} -> << rv.ret >>
